@@ -389,7 +389,7 @@ def rule_profile_diff(prop, ctx_repo_dev, repo_rel, ls_factory):
     F = repo.F
     Frel = repo_rel.F
     R = Rule("R-PROFILE-DIFF", "every assertion that exists only in the dev-profile MIR (integer-overflow checks, debug_assert!) is discharged by interval analysis, or fails for an "
-             "exhibited abstract input (violation), or is a listed numerical self-check", floor=80, exhaustive=True)
+             "exhibited abstract input (violation), or is a listed numerical self-check", floor=25, exhaustive=True)
     sites = profile_sites(F, Frel)
     asserts = [s for s in sites if s[0] == "assert"]
     dbg = [s for s in sites if s[0] == "debug_assert"]
